@@ -77,11 +77,16 @@ def remEuclid (x : Int) (p : Nat) : Option Nat :=
   else some (x % q).toNat                                -- Int `%` is the Euclidean remainder
 
 /-- one row, one lane of `mulp` -/
-def rowLane (col : Nat → Nat) (p : Nat) (r : Row) : Option Nat := do
-  let x ← accP1 col r 0
-  let x ← accM1 col r x
-  let x ← accX col r x
-  remEuclid x p
+def rowLane (col : Nat → Nat) (p : Nat) (r : Row) : Option Nat :=
+  match accP1 col r 0 with
+  | none => none
+  | some x1 =>
+    match accM1 col r x1 with
+    | none => none
+    | some x2 =>
+      match accX col r x2 with
+      | none => none
+      | some x3 => remEuclid x3 p
 
 /-- one lane of `mulp(p, v, out)`: `v` is the lane's vector -/
 def mulpLane (m : Mat) (p : Nat) (v : List Nat) : Option (List Nat) :=
